@@ -21,6 +21,17 @@ package sequence
 //@   ensures qCtx.query == old(qCtx.query) && qCtx.clientOpt == old(qCtx.clientOpt) && qCtx.respOpt == old(qCtx.respOpt)
 //@   ensures qCtx.query.Id == old(qCtx.query.Id) && len(qCtx.query.Question) == old(len(qCtx.query.Question))
 //@   ensures old(len(qCtx.query.Question)) == 1 ==> qCtx.query.Question[0] == old(qCtx.query.Question[0])
-//@   ensures qCtx.resp != nil ==> respOK(qCtx.query, qCtx.resp) && noOPT(qCtx.resp.Extra) && qCtx.resp != qCtx.query
+//@   ensures qCtx.resp != nil ==> respOK(qCtx.query, qCtx.resp) && noOPT(qCtx.resp.Extra) && qCtx.resp != qCtx.query && wfMsg(qCtx.resp) && okRRs(qCtx.resp.Extra)
 //@   ensures qCtx.respOpt != nil ==> qCtx.respOpt.Hdr.Rrtype == 41
 //@   ensures old(qCtx.clientOpt) != nil ==> old(qCtx.clientOpt).Hdr.Class == old(qCtx.clientOpt.Hdr.Class)
+
+// ExecNext, seen from a wrapping plugin: the rest of the chain behaves like any Executable.
+//@ func (w *ChainWalker) ExecNext [C03]
+//@   nobody
+//@   log ExecNext
+//@   requires w != nil && qCtx != nil
+//@   modifies *
+//@   ensures qCtx.query == old(qCtx.query) && qCtx.clientOpt == old(qCtx.clientOpt) && qCtx.respOpt == old(qCtx.respOpt)
+//@   ensures qCtx.query.Id == old(qCtx.query.Id) && len(qCtx.query.Question) == old(len(qCtx.query.Question))
+//@   ensures old(len(qCtx.query.Question)) == 1 ==> qCtx.query.Question[0] == old(qCtx.query.Question[0])
+//@   ensures qCtx.resp != nil ==> respOK(qCtx.query, qCtx.resp) && noOPT(qCtx.resp.Extra) && qCtx.resp != qCtx.query && wfMsg(qCtx.resp) && okRRs(qCtx.resp.Extra)
